@@ -15,6 +15,7 @@ A *program* is a list of statements in SSA form (statement k defines variable k)
     {"op": "join", "a": v, "b": w, "dim": name | [name, labels], "match": bool}
     {"op": "arith", "a": v, "fn": "add|subtract|multiply|divide|pow", "b": w | "scalar": k}
     {"op": "transform", "a": v, "func": "mul"|"seldrop"|"sel"|"take", "params": [...], "dim": ..., "axis": int, "fdim": d?}
+    {"op": "transform", "a": v, "func": "lookup", "r": [w...], "params": [i...], ...}   (C14: func hands back the existing action r[i])
 
 Nothing here depends on the Lean model.
 """
@@ -168,6 +169,8 @@ def exec_stmt(st, env):
             f = lambda act, v: fl._expand_transform(act, v, 0)  # noqa: E731
         elif kind == "ident":       # C14 probe: a func that hands its argument back
             f = lambda act, v: act  # noqa: E731
+        elif kind == "lookup":      # C14 probe: a func that hands back a previously built action (a table of products)
+            f = lambda act, v: env[st["r"][v]]  # noqa: E731
         else:
             raise ValueError(kind)
         return a.transform(f, [(p,) for p in st["params"]], _dimarg(st["dim"]), axis=st["axis"])
@@ -175,7 +178,10 @@ def exec_stmt(st, env):
 
 
 def operands(st):
-    return [st[k] for k in ("a", "b") if k in st and isinstance(st[k], int) and st["op"] != "source"]
+    ops = [st[k] for k in ("a", "b") if k in st and isinstance(st[k], int) and st["op"] != "source"]
+    if st.get("func") == "lookup":
+        ops += [j for j in st.get("r", []) if isinstance(j, int) and j not in ops]
+    return ops
 
 
 def run_real(prog, hook=None):
